@@ -92,7 +92,59 @@ def run(ctx):
     toks = [t for t in o2.split() if t.startswith("netconanRemoved")]
     if len(toks) == 2 and toks[0] == toks[1]:
         ctx.fail("two different secrets on one line received the same replacement", {"line": two[11]}, o2, label="two-matches-one-line")
-    ctx.evaluations = sum(len(c) - 11 for c in cases) + 1
+    n_multi = across_files(ctx, rng, q)
+    ctx.evaluations = sum(len(c) - 11 for c in cases) + 1 + n_multi
     ctx.distinct_nontrivial = nt
     ctx.search_stats = {"runs": len(cases), "lines": ctx.evaluations, "runs_with_repeated_secret": nt}
     ctx.samples = [{"lines": cases[0][11:14], "impl": textgen.outlines(i[0])[:3]}]
+
+
+def across_files(ctx, rng, q):
+    """"within one run": a run over a directory is ONE run -- the same secret in two files must receive the same replacement, different secrets in
+    different files different ones ($9$ strings compared by their plaintext); through anonymize_files, the command line, and several buffers
+    handed to one FileAnonymizer"""
+    import base64
+    import json
+    import vlib
+    runs, metas = [], []
+    for _ in range(3 if q else 25):
+        secrets = [textgen.make_secret(rng, cls) for cls in rng.sample(["text", "text", "numeric", "hex", "type7", "md5"], 4)]
+        plain = "".join(rng.choice("abcXYZ129") for _ in range(8))
+        nine = [textgen.ref_encrypt9(plain, rng.choice(textgen.ALPHA9)) for _ in range(2)]
+        names = ["a.cfg", "b.cfg", "sub/c.cfg"]
+        files = {nm: [] for nm in names}
+        # every secret occurs in at least two files; each file starts with a secret no other file starts with
+        order = {"a.cfg": [secrets[0], secrets[1], nine[0], secrets[2]], "b.cfg": [secrets[1], secrets[3], secrets[0], nine[1]], "sub/c.cfg": [secrets[2], nine[1], secrets[3], secrets[0]]}
+        for nm in names:
+            for sec in order[nm]:
+                files[nm].append(sec)
+        tree = [[nm, base64.b64encode("".join("snmp-server community %s RO\n" % x if not x.startswith("$9$") else "set system login user u authentication encrypted-password \"%s\";\n" % x for x in xs).encode()).decode(), {}]
+                for nm, xs in files.items()]
+        opts = {"pwd": True, "salt": rng.choice(["s", "Q", ""])}
+        for mode in ("api", "main", "io"):
+            runs.append(["files", mode, json.dumps(opts), json.dumps(tree)])
+            metas.append((files, mode))
+    n = 0
+    for c, out, (files, mode) in zip(runs, vlib.run_impl(runs), metas):
+        try:
+            r = json.loads(out)
+            seen, by_core = {}, {}
+            for nm, xs in files.items():
+                ols = r["out"][nm].splitlines()
+                for sec, ol in zip(xs, ols):
+                    n += 1
+                    toks = ol.replace('"', " ").replace(";", " ").split()
+                    repl = toks[2] if ol.startswith("snmp-server") else toks[-1]
+                    k = secretlib.secret_key(sec)
+                    cr = secretlib.core(repl)[1]
+                    if k in seen and seen[k][0] != cr:
+                        ctx.fail("the same secret received two different replacements within one run over several files (%s)" % mode,
+                                 {"secret": sec, "first_file": seen[k][1], "file": nm, "mode": mode}, [seen[k][0], cr], label="impl-files")
+                    if cr in by_core and by_core[cr] != k:
+                        ctx.fail("two different secrets received the same replacement within one run over several files (%s)" % mode,
+                                 {"secrets": [by_core[cr], k], "file": nm, "mode": mode}, cr, label="impl-files")
+                    seen.setdefault(k, (cr, nm))
+                    by_core.setdefault(cr, k)
+        except Exception as e:
+            ctx.fail("multi-file run did not produce readable output (%s): %s" % (mode, e), c[:3], out[:300], label="impl-files")
+    return n
